@@ -449,3 +449,74 @@ def pa_rules(ctx):
         if not any(c[0] == st for c in parked):
             out.append(undecided('PA-wake', 'reach:' + st, 'parked state %s is not reachable in the extracted protocol' % st))
     return out
+
+
+SYNC_IMMEDIATE = 'desync::scheduler::desync_scheduler::Scheduler::sync_immediate'
+
+
+def tr_immediate(ctx):
+    """A caller's closure is run directly (out of the queue) only when the queue was claimed from Idle *and* seen empty in that critical section."""
+    P = ctx.proto
+    out = _problems(ctx, 'TR-immediate')
+    # functions that run the caller's closure directly
+    direct = set(fn.name for fn, bb, kind in P.exec_sites if kind == 'closure()')
+    n = 0
+    for fname, callee, snaps in events_of(P, 'call_acq'):
+        if callee not in direct:
+            continue
+        n += 1
+        key = '%s -> %s' % (short(fname), short(callee))
+        badrows = []
+        for acq in snaps:
+            if acq is None:
+                badrows.append('token not acquired in this function')
+            else:
+                pre, len0 = acq
+                if set(pre) != {'Idle'} or len0 != 'Y':
+                    badrows.append('claimed from %s with queue-empty=%s' % ('/'.join(pre), len0))
+        if badrows:
+            out.append(bad('TR-immediate', key, 'the closure is run ahead of the queue: %s. Work already queued (including the final job of Desync::drop) would be overtaken' % '; '.join(sorted(set(badrows))), fn=fname))
+        else:
+            out.append(ok('TR-immediate', key, 'only from (Idle, queue empty)', fn=fname))
+    if n < 3:
+        out.append(undecided('TR-immediate', 'floor', 'found %d direct-run call sites, expected at least 3' % n))
+    return out
+
+
+def park_wake(ctx):
+    """Each waker resumes what it finds parked: the queue waker reschedules a queue parked in WaitingForWake or WaitingForPoll (so a pool
+    thread takes over a queue whose polling task went away); the thread waker unparks a queue parked in WaitingForUnpark."""
+    P = ctx.proto
+    out = _problems(ctx, 'PARK-wake')
+    acts = defaultdict(set)
+    for fname, _, snaps in events_of(P, 'exit_act'):
+        acts[fname] |= snaps
+    need = {WAKE_QUEUE: (('WaitingForWake', 'WaitingForPoll'), 1, 'reschedule_queue'), WAKE_THREAD: (('WaitingForUnpark',), 2, 'Thread::unpark')}
+    for fname, (states, bit, what) in need.items():
+        if fname not in acts:
+            out.append(undecided('PARK-wake', short(fname), 'waker not found'))
+            continue
+        for st in states:
+            rows = [(pre, act) for (pre, act) in acts[fname] if pre is not None and st in pre]
+            key = '%s|%s' % (short(fname).split(' as ')[0].strip('<'), st)
+            if not rows:
+                out.append(bad('PARK-wake', key, 'no path of the waker handles a queue parked in %s' % st, fn=fname))
+            elif all(act & bit for (pre, act) in rows):
+                out.append(ok('PARK-wake', key, 'calls %s on every path that found the queue in %s' % (what, st), fn=fname))
+            else:
+                out.append(bad('PARK-wake', key, 'a path that finds the queue parked in %s returns without calling %s: the wake-up is dropped and nobody resumes the queue' % (st, what), fn=fname))
+    # reschedule_queue offers a WaitingForPoll queue to the pool, and the pool accepts it
+    if any(r == 'TOK-pending' and f.endswith('reschedule_queue') for (r, f, m, l) in P.viol):
+        out.append(bad('PARK-wake', 'reschedule_queue|WaitingForPoll', 'a queue parked for a polling task is not put on the schedule when it is woken', fn=RESCHED))
+    else:
+        out.append(ok('PARK-wake', 'reschedule_queue|WaitingForPoll', 'a woken WaitingForPoll queue is pushed on the schedule and a thread is asked', fn=RESCHED))
+    pool_claims = set()
+    for fname, key, snaps in events_of(P, 'writesite'):
+        for (s, s2, role, own, len0) in snaps:
+            if role == 'acquire' and s == 'WaitingForPoll' and own != 'Y':
+                pool_claims.add(fname)
+    if pool_claims:
+        out.append(ok('PARK-wake', 'pool|claims-WaitingForPoll', 'a queue abandoned by its polling task can be claimed by %s' % ', '.join(short(x) for x in sorted(pool_claims))))
+    else:
+        out.append(bad('PARK-wake', 'pool|claims-WaitingForPoll', 'only the future that parked the queue can resume it: if that future is dropped or never polled again the operation and everything behind it is stranded'))
+    return out
